@@ -144,11 +144,20 @@ Theorem C03_strict_sro_raises_iff : forall rk g root x f F,
 Proof. exact strict_sro_thm. Qed.
 Print Assumptions C03_strict_sro_raises_iff.
 
+(* ZOPE_INTERFACE_USE_LEGACY_IRO=1: the legacy order with Interface forced last is still a valid
+   linearization ending with Interface *)
+Theorem C03_legacy_sro_valid : forall rk g root x fuel,
+  wfb rk g = true -> bases g root = [] -> x <> root -> rk x < fuel ->
+  ValidLin (rooted root (bases g)) root x (root_last root (legacy_ro fuel g x)).
+Proof. exact legacy_sro_thm. Qed.
+Print Assumptions C03_legacy_sro_valid.
+
 (* ---------------------------------------------------------------- non-vacuity witnesses *)
 (* Interface = 0.  Diamond: 1(0) 2(1) 3(1) 4(2,3).  Inconsistent: 1(0) 2(1) 3(1,2). *)
 Definition g_diamond : graph := [(0, []); (1, [0]); (2, [1]); (3, [1]); (4, [2; 3])].
 Definition g_bad : graph := [(0, []); (1, [0]); (2, [1]); (3, [1; 2]); (4, [3])].
 Definition rk_id (x : nat) : nat := x.
+Definition g_rootfirst : graph := [(0, []); (1, []); (2, [0; 1])].
 
 Example ex_wf_diamond : wfb rk_id g_diamond = true /\ bases g_diamond 0 = [].
 Proof. split; reflexivity. Qed.
@@ -196,6 +205,11 @@ Proof.
   intros b [<-|[<-|[]]]; vm_compute; discriminate.
 Qed.
 
+(* legacy setting on the inconsistent hierarchy and on "Interface first" *)
+Example ex_legacy_sro : root_last 0 (legacy_ro 5 g_bad 4) = [4; 3; 2; 1; 0]
+  /\ legacy_ro 3 g_rootfirst 2 = [2; 0; 1] /\ root_last 0 (legacy_ro 3 g_rootfirst 2) = [2; 1; 0].
+Proof. vm_compute. repeat split; reflexivity. Qed.
+
 (* merges: a successful one, a failing one, and duplicate-free inputs *)
 Example ex_merge_ok : c3_merge [[4]; [2; 1; 0]; [3; 1; 0]; [2; 3]] = MOk [4; 2; 3; 1; 0]
   /\ merge [[4]; [2; 1; 0]; [3; 1; 0]; [2; 3]] = Some [4; 2; 3; 1; 0]
@@ -216,7 +230,6 @@ Proof. vm_compute. split; reflexivity. Qed.
 (* Interface as an explicit non-last base, 2(0, 1) with base-less 1: the declared hierarchy has a
    C3 order (which ro.ro returns) but with Interface under everything there is none; __sro__ is
    still valid and ends with Interface *)
-Definition g_rootfirst : graph := [(0, []); (1, []); (2, [0; 1])].
 Example ex_rootfirst : wfb rk_id g_rootfirst = true
   /\ ro true false 3 g_rootfirst 2 = ROk [2; 0; 1] false
   /\ c3_lin (rooted 0 (bases g_rootfirst)) 4 2 = None
